@@ -32,6 +32,7 @@ func register(id string, meta propMeta, run func(a *A)) {
 var commonTrusted = []string{
 	"go/types, go/ssa, go/packages of golang.org/x/tools v0.29.0 (type checking, SSA construction, dominators)",
 	"this repository's own analysers in /verif/gbv (unverified; hence level 'other', not 'proof')",
+	"the source normal forms of /verif/gbv/normalise*.go preserve behaviour (scalar replacement of local structs always; inlining of single-use functions and call-only closures only when the program as written does not come out clean)",
 }
 
 func main() {
